@@ -85,9 +85,17 @@ def vo(path):
     return "theories/" + path + ".vo"
 
 
+def prop_files(cfg):
+    pf = cfg["properties"]
+    return pf if isinstance(pf, list) else [pf]
+
+
 def theorem_names(prop_file):
-    src = open(os.path.join(COQ, "theories", prop_file + ".v")).read()
-    return re.findall(r'^(?:Theorem|Example)\s+(\w+)', src, flags=re.M)
+    names = []
+    for f in (prop_file if isinstance(prop_file, list) else [prop_file]):
+        src = open(os.path.join(COQ, "theories", f + ".v")).read()
+        names += re.findall(r'^(?:Theorem|Example)\s+(\w+)', src, flags=re.M)
+    return names
 
 
 def audit(pid, prop_file, outdir):
@@ -102,10 +110,11 @@ def audit(pid, prop_file, outdir):
     if re.search(r'type-in-type|impredicative-set|-vos|-vok', cp):
         problems.append("_CoqProject passes a forbidden flag")
     names = theorem_names(prop_file)
-    mod = "EB." + prop_file.replace("/", ".")
+    files = prop_file if isinstance(prop_file, list) else [prop_file]
     a = os.path.join(outdir, "audit_%s.v" % pid)
     with open(a, "w") as f:
-        f.write("Require Import %s.\n" % mod)
+        for pf in files:
+            f.write("Require Import %s.\n" % ("EB." + pf.replace("/", ".")))
         for n in names:
             f.write('Goal True. idtac "@@ %s". exact I. Qed.\nPrint Assumptions %s.\n' % (n, n))
     rc, out = sh(["coqc", "-noglob", "-Q", os.path.join(COQ, "theories"), "EB", a], timeout=600)
@@ -261,8 +270,8 @@ def check_property(pid, tier, seed, replay=None):
         for e in terrs:
             broken.append(("translator", e))
         # 1. theorems
-        prop_file = cfg["properties"]
-        ok, mlog, failing = coq_make([vo(prop_file)])
+        prop_file = prop_files(cfg)
+        ok, mlog, failing = coq_make([vo(f) for f in prop_file])
         names = theorem_names(prop_file)
         if not ok:
             broken.append(("theorem", "Coq build of %s failed at %s" % (prop_file, failing[:3] or mlog[-600:])))
@@ -399,7 +408,7 @@ def check_property(pid, tier, seed, replay=None):
         "property_id": pid, "tier": tier, "seed": seed, "level": cfg.get("level", "proof"),
         "coverage": {
             "obligations": max(n_obl, 1), "discharged": n_dis if n_dis > 0 else (0 if n_obl else 1),
-            "checker_cmd": "make -C coq %s (coqc 8.16.1 kernel, full .vo build) + Print Assumptions audit" % vo(cfg["properties"]),
+            "checker_cmd": "make -C coq %s (coqc 8.16.1 kernel, full .vo build) + Print Assumptions audit" % " ".join(vo(f) for f in prop_files(cfg)),
             "trusted_base": P.TRUSTED_BASE + cfg.get("trusted", []),
             "theorems": [{"name": n, "discharged": d, "assumptions": assumptions.get(n)} for n, d in obligations],
             "evaluations": evaluations, "distinct_nontrivial": distinct_nt,
